@@ -27,6 +27,7 @@ struct Acc {
     nontrivial: u64,
     printer_runs: u64,
     known: u64,
+    known_by: BTreeMap<&'static str, u64>,
     disc: Vec<(Option<&'static str>, String, Value)>,
 }
 
@@ -147,11 +148,21 @@ enum V {
     Column,
     InvertCtx,
     MultiLine,
+    /// --crlf on inputs that mix `\r\n` and bare `\n` terminators
+    CrlfMixed,
+    /// -U --crlf with patterns that cannot match `\n` (searched line by line)
+    MlCrlf,
 }
 
 /// What the standard printer should print for `input` (see the rule text);
 /// `expand` turns one match into its replacement text.
 fn reference_output(v: V, re: &regex::bytes::Regex, f: &PFlags, input: &[u8], swallow: bool, expand: &dyn Fn(&regex::bytes::Captures, &mut Vec<u8>)) -> Vec<u8> {
+    reference_output2(v, re, f, input, swallow, false, expand)
+}
+
+/// `crlf_rewrite`: counterfactual switch of known finding
+/// `replacement-rewrites-bare-lf-terminator-under-crlf`.
+fn reference_output2(v: V, re: &regex::bytes::Regex, f: &PFlags, input: &[u8], swallow: bool, crlf_rewrite: bool, expand: &dyn Fn(&regex::bytes::Captures, &mut Vec<u8>)) -> Vec<u8> {
         // reference
         let lines = split_lines(&input, b'\n');
         let mut want: Vec<u8> = vec![];
@@ -245,6 +256,7 @@ fn reference_output(v: V, re: &regex::bytes::Regex, f: &PFlags, input: &[u8], sw
                 // lines without a match are never altered
                 // replace-all: unmatched text intact, each match expanded
                 let mut last = 0;
+                let mut replaced_any = false;
                 for c in re.captures_iter(body) {
                     let g = c.get(0).unwrap();
                     want.extend(&body[last..g.start()]);
@@ -252,10 +264,15 @@ fn reference_output(v: V, re: &regex::bytes::Regex, f: &PFlags, input: &[u8], sw
                     expand(&c, &mut ex);
                     want.extend(ex);
                     last = g.end();
+                    replaced_any = true;
                 }
                 want.extend(&body[last..]);
                 let replaced_ends_with_newline = want.last() == Some(&b'\n');
-                want.extend(&raw[raw.len() - term_len..]);
+                if crlf_rewrite && replaced_any && f.crlf && term_len == 1 && !replaced_ends_with_newline {
+                    want.extend(b"\r\n");
+                } else {
+                    want.extend(&raw[raw.len() - term_len..]);
+                }
                 // an unterminated last line gets a terminator for display,
                 // unless the printed text already ends with one
                 if term_len == 0 && want.last() != Some(&b'\n') {
@@ -361,7 +378,7 @@ pub fn run(args: &Args) -> ! {
             idx.iter().map(|&k| al[k]).collect()
         })
         .collect();
-    let variants = [V::Plain, V::Only, V::Crlf, V::Column, V::InvertCtx, V::MultiLine];
+    let variants = [V::Plain, V::Only, V::Crlf, V::Column, V::InvertCtx, V::MultiLine, V::CrlfMixed, V::MlCrlf];
     let mlpats: &[&str] = &["(a)\\n(b)?", "(a)|(\\n)", "(?s:(.)(.))", "(-)\\n"];
     let mut work = vec![];
     for v in variants.iter() {
@@ -383,7 +400,11 @@ pub fn run(args: &Args) -> ! {
             let mut so = StdOpts { line_number: true, replacement: Some(tmpl.as_bytes().to_vec()), ..Default::default() };
             match v {
                 V::Only => so.only_matching = true,
-                V::Crlf => f.crlf = true,
+                V::Crlf | V::CrlfMixed => f.crlf = true,
+                V::MlCrlf => {
+                    f.crlf = true;
+                    f.multiline = true;
+                }
                 V::Column => so.column = true,
                 V::InvertCtx => {
                     f.invert = true;
@@ -397,30 +418,62 @@ pub fn run(args: &Args) -> ! {
                 V::Plain => {}
             }
             let Ok(m) = build_matcher(&[pat], &f) else { return };
+            if v == V::MlCrlf && build_searcher(&f, true).multi_line_with_matcher(&m) {
+                // (an anchored pattern under -U --crlf is searched with the true
+                // multi-line strategy, whose block output is the MultiLine
+                // variant's subject)
+                return;
+            }
             let re = regex::bytes::RegexBuilder::new(pat).multi_line(true).crlf(f.crlf).build().unwrap();
             let mut per = 0;
             for input in inputs.iter() {
-                let input: Vec<u8> = if v == V::Crlf { input.iter().flat_map(|&b| if b == b'\n' { vec![b'\r', b'\n'] } else { vec![b] }).collect() } else { input.clone() };
+                let input: Vec<u8> = match v {
+                    V::Crlf | V::MlCrlf => input.iter().flat_map(|&b| if b == b'\n' { vec![b'\r', b'\n'] } else { vec![b] }).collect(),
+                    V::CrlfMixed => {
+                        // every other terminator is a bare \n
+                        let mut k = 0;
+                        input
+                            .iter()
+                            .flat_map(|&b| {
+                                if b == b'\n' {
+                                    k += 1;
+                                    if k % 2 == 0 { vec![b'\r', b'\n'] } else { vec![b'\n'] }
+                                } else {
+                                    vec![b]
+                                }
+                            })
+                            .collect()
+                    }
+                    _ => input.clone(),
+                };
                 let out = run_mode(&input, &m, &f, &Mode::Standard(so.clone()), false);
                 acc.printer_runs += 1;
                 let want = reference_output(v, &re, &f, &input, false, &|c, d| c.expand(tmpl.as_bytes(), d));
                 if out.error.is_some() || out.out != want {
                     let want_old = reference_output(v, &re, &f, &input, false, &|c, d| expand_model(tmpl.as_bytes(), c, &re, true, d));
                     let want_sw = reference_output(v, &re, &f, &input, true, &|c, d| c.expand(tmpl.as_bytes(), d));
+                    let want_rw = reference_output2(v, &re, &f, &input, false, true, &|c, d| c.expand(tmpl.as_bytes(), d));
+                    let want_rw_old = reference_output2(v, &re, &f, &input, false, true, &|c, d| expand_model(tmpl.as_bytes(), c, &re, true, d));
+                    let want_rw_sw = reference_output2(v, &re, &f, &input, true, true, &|c, d| c.expand(tmpl.as_bytes(), d));
                     let finding = if out.error.is_none() && out.out == want_old {
                         Some("braced-reference-name-charset")
                     } else if out.error.is_none() && out.out == want_sw {
                         Some("replacement-ending-in-newline-swallows-terminator")
+                    } else if out.error.is_none() && (out.out == want_rw || out.out == want_rw_old || out.out == want_rw_sw) {
+                        Some("replacement-rewrites-bare-lf-terminator-under-crlf")
                     } else {
                         None
                     };
-                    if finding.is_some() {
+                    if let Some(fid) = finding {
+                        // (a few examples per finding and thread are enough)
                         acc.known += 1;
-                        if acc.known > 3 {
+                        let n = acc.known_by.entry(fid).or_insert(0);
+                        *n += 1;
+                        if *n > 3 {
                             continue;
                         }
                     }
-                    if per < 2 && acc.disc.len() < 200 {
+                    if (per < 2 || finding.is_some()) && acc.disc.len() < 200 {
                         per += 1;
                         acc.disc.push((
                             finding,
@@ -453,7 +506,7 @@ pub fn run(args: &Args) -> ! {
     ev.set(
         "rule",
         format!(
-            "layer 1: every replacement template that is a token string of length <= {} over {:?} ({} templates) x {} patterns with optional / nested / named / empty-matching groups x 6 haystacks: Captures::interpolate == regex::bytes::Captures::expand (regex 1.10.6). layer 2: the standard printer with -r for {} templates x the same patterns x every input over {{a,b,-,\\n}} up to length {} x {{plain, -o, --crlf, --column, -v -C1, -U (4 line-crossing patterns, no line numbers)}}: printed output == per-line regex::bytes::Regex::replace_all with the terminator held aside (per match expansion under -o; lines without a match unaltered). distinct_nontrivial = interpolations whose expansion differs from the template text.",
+            "layer 1: every replacement template that is a token string of length <= {} over {:?} ({} templates) x {} patterns with optional / nested / named / empty-matching groups x 6 haystacks: Captures::interpolate == regex::bytes::Captures::expand (regex 1.10.6). layer 2: the standard printer with -r for {} templates x the same patterns x every input over {{a,b,-,\\n}} up to length {} x {{plain, -o, --crlf, --crlf on inputs mixing \\r\\n and bare \\n, -U --crlf (patterns that cannot match \\n), --column, -v -C1, -U (4 line-crossing patterns, no line numbers)}}: printed output == per-line regex::bytes::Regex::replace_all with the terminator held aside (per match expansion under -o; lines without a match unaltered). distinct_nontrivial = interpolations whose expansion differs from the template text.",
             tier.pick(3, 4), TEMPLATE_TOKENS, tmpls.len(), PATTERNS.len(), ptmpls.len(), maxlen
         ),
     );
